@@ -263,6 +263,21 @@ impl DifficultyValues {
         n_diff_objects: &mut usize,
         mods: &GameMods,
     ) -> TaikoDifficultyObjects {
+        // `take` counts hits. Once all of them are passed, the map is
+        // finished so potential drum rolls and swells after the last hit
+        // must be considered too, just like when `take` is not limited.
+        let total_hits = converted
+            .hit_objects
+            .iter()
+            .filter(|h| h.is_circle())
+            .count();
+
+        let take = if take as usize >= total_hits {
+            u32::MAX
+        } else {
+            take
+        };
+
         let mut hit_objects_iter = converted
             .hit_objects
             .iter()
